@@ -82,9 +82,16 @@ Definition sepb (tol x y : Q) : bool := Qeq_bool x y || Qltb tol (x - y) || Qltb
 Definition wellsepb (tol : Q) (pts : list Q) : bool :=
   forallb (fun x => forallb (sepb tol x) pts) pts.
 
+Fixpoint nondecrb (l : list Q) : bool :=       (* non-decreasing: repeated time points allowed *)
+  match l with
+  | [] => true
+  | x :: l' => match l' with [] => true | y :: _ => Qle_bool x y && nondecrb l' end
+  end.
+
+(* array pulse: non-decreasing grid with at least one point, one sample per interval or per grid point *)
 Definition pulse_okb (p : pulse) : bool :=
   match pco p, ptl p with
-  | CArr cf, Some tl => incrb tl && (2 <=? length tl)%nat
+  | CArr cf, Some tl => nondecrb tl && (1 <=? length tl)%nat
                         && ((length cf + 1 =? length tl)%nat || (length cf =? length tl)%nat)
   | CArr _, None => false
   | CNone, Some _ => false
@@ -93,6 +100,21 @@ Definition pulse_okb (p : pulse) : bool :=
 
 Definition inputs_okb (tol : Q) (ps : list pulse) : bool :=
   Qle_bool 0 tol && forallb pulse_okb ps && wellsepb tol (concat (all_tlists ps))
+  && negb (match all_tlists ps with [] => true | _ => false end).
+
+(* the narrower domain on which the one-step advance of the earlier code (v0, v1) is correct:
+   strictly increasing grids with at least two points *)
+Definition pulse_okb_v1 (p : pulse) : bool :=
+  match pco p, ptl p with
+  | CArr cf, Some tl => incrb tl && (2 <=? length tl)%nat
+                        && ((length cf + 1 =? length tl)%nat || (length cf =? length tl)%nat)
+  | CArr _, None => false
+  | CNone, Some _ => false
+  | _, _ => true
+  end.
+
+Definition inputs_okb_v1 (tol : Q) (ps : list pulse) : bool :=
+  Qle_bool 0 tol && forallb pulse_okb_v1 ps && wellsepb tol (concat (all_tlists ps))
   && negb (match all_tlists ps with [] => true | _ => false end).
 
 (* the extra guard the code AS FOUND needs: an array pulse given one sample per grid point must not
